@@ -89,6 +89,7 @@ func c13Pairs(run *ev.Run, thorough bool) (evals int64, distinct int64, collisio
 					defer wg.Done()
 					for jb := range jobs {
 						k1, k2 := keys[jb.i], keys[jb.j]
+						ev.Breadcrumb("keypair " + sc.name + " " + k1.CanonText() + " " + k2.CanonText())
 						impl := d.New()
 						m := model.New()
 						hist := []drv.Op{
